@@ -89,6 +89,7 @@ BASE = [
     ["slice", [-2, None]],
     ["slice", [-2, -1]],
     ["slice", [-2, 3]],
+    ["slice", [-2, -3]],
     ["split", 1, True, [[["call", "id"]]]],
     ["split", 2, True, [[["filter", "even"]], [["call", "inc"]]]],
     ["split", 3, False, [[["slice", [None, -1]]], [["call", "id"]]]],
@@ -200,10 +201,16 @@ def run_schedule(pipeline, form, n, style, stage, k, limit, bound_live):
         if log:
             obs["work_at_build"] = list(log)
         if stage != "built":
-            it = seq.run(src) if form == "seq" else seq()
+            try:
+                it = seq.run(src) if form == "seq" else seq()
+            except (M.Runaway, Exception) as e:  # noqa: run() itself worked on the flow and failed
+                it = iter(())
+                obs["status"] = "run-call-" + ("runaway" if isinstance(e, M.Runaway) else "raised " + type(e).__name__)
+                if not log:
+                    log.append(("run-call-failed", type(e).__name__))
             if log:
                 obs["work_at_run"] = list(log)
-            if stage != "run":
+            if stage != "run" and obs["status"] == "ok":
                 try:
                     for step in range(k):
                         r = next(it)
@@ -312,6 +319,8 @@ def judge_combo(res, ctx, pipeline, form, n, style, dom, only=None):
         if stage in ("built", "run"):
             continue
         status = obs["status"]
+        if status.startswith("run-call-"):
+            continue        # already reported as work-at-run-call
         if status in ("fewer-results", "more-results") or status.startswith("raised"):
             # the lazy run disagrees with the eager run about *what* is produced: not this property
             res.count("skipped_results_differ_from_eager_reference")
